@@ -29,11 +29,17 @@ Qed.
 Lemma cb_a64_progress md rel rg m ra rg' :
   fst (cb_a64 md false rel rg m) = CbUncacheable ra rg' -> asp rg < asp rg'.
 Proof.
-  unfold cb_a64. destruct (mdat md) as [|p sec|]; [discriminate| |discriminate]. unfold cb_dwarf.
   assert (W : forall f svma, with_fde arule aregs row_step_a64 uncovered_rule_a64 f svma false rg m
                               = CbUncacheable ra rg' -> asp rg < asp rg').
   { intros f svma. unfold with_fde. destruct (row_for_address f svma) as [rw|]; [|discriminate].
     unfold row_step_a64. destruct (translate_a64 rw); [discriminate|]. apply generic_a64_progress. }
+  unfold cb_a64. destruct (mdat md) as [|p sec| |d]; [discriminate| |discriminate|].
+  2:{ unfold MachoCb.cb_macho.
+      destruct (Macho.macho_cui _ _ _ _ _ d rel false); try discriminate.
+      destruct (Macho.m_eh d) as [l|]; [|discriminate].
+      destruct (MachoCb.eh_find l fde_offset) as [f|]; [|discriminate].
+      destruct (add64p S_dwarf_svma_add (base_svma md) rel); cbn [fst]; try discriminate. apply W. }
+  unfold cb_dwarf.
   destruct p.
   - unfold add64p. destruct (base_svma md + rel <? W64); cbn; [|discriminate].
     destruct (hdr_lookup sec (base_svma md + rel)); cbn; [apply W | discriminate].
